@@ -283,8 +283,8 @@ impl Checker {
                     || self.c01.crafted_sessions.contains(&session)
             })
             .unwrap_or(false);
-        if !deviating {
-            // a protocol-following peer got banned
+        if !deviating && self.honest_only {
+            // a protocol-following peer got banned (in a world of protocol-following peers)
             let code = reason.split(':').next().unwrap_or(reason).to_string();
             let mut clause = format!("honest_peer_banned:{}", normalize(&code));
             // reorg window: the banned peer, or a peer contributing to the agreed filter
@@ -391,6 +391,7 @@ impl Checker {
     pub fn on_session_closed(&mut self, sim: &mut Sim, session: usize, p: usize) {
         crate::oracle2::c11_on_session_closed(self, sim, session, p);
         self.excused.remove(&session);
+        self.c07.delivered.remove(&session);
     }
 
     pub fn on_fault(&mut self, sim: &mut Sim, what: &str, peer: Option<usize>) {
